@@ -1164,7 +1164,7 @@ Proof.
       { apply is_acked_mono; [assumption|]. rewrite Hha. destruct (Z.ltb_spec (rp_ha p) (base - 1)); lia. }
       cbn [andb]. destruct (is_acked (Some p2) (s_last s)) eqn:Ea.
       * unfold Mono, ackd, npend; cbn. rewrite Ep. rewrite npend_drain. repeat split; auto; lia.
-      * unfold Mono, ackd, npend; cbn. rewrite Ep. repeat split; intros; try lia. rewrite Hmono in Ea by assumption. discriminate.
+      * unfold Mono, ackd, npend; cbn. rewrite Ep. repeat split; intros; try lia. specialize (Hmono H). discriminate.
     + cbn [andb]. unfold Mono, ackd, npend; cbn. rewrite Ep. repeat split; auto; lia.
   - pose proof (on_nackfrag_static cf (s_changes s) p sn base set count) as Hs.
     assert (Hha : rp_ha (fst (on_nackfrag cf (s_changes s) p sn base set count)) = rp_ha p).
@@ -1215,8 +1215,9 @@ Proof.
     - destruct (s_rd s); unfold npend; cbn; lia.
     - destruct (s_rd s); [cbn; lia|]. destruct (s_rdead s || _); [cbn; lia|].
       destruct (rxo_ok cf rel tl); cbn [fst]; [|unfold npend; cbn; lia].
-      match goal with |- (npend (poke cf ?st) < _)%nat -> _ => intros Hlt; pose proof (Mono_poke cf st) as (_ & Hle & _) end.
-      unfold npend in *; cbn in *. lia.
+      match goal with |- (npend (poke cf ?st) < _)%nat -> _ =>
+        intros Hlt; pose proof (Mono_poke cf st) as (_ & _ & M3); assert (Heq : npend st = npend s) by reflexivity end.
+      apply M3. lia.
     - unfold npend; cbn. lia.
     - unfold npend; cbn. lia.
     - destruct (is_acked (s_rp s) (s_last s)); unfold npend; cbn; rewrite filter_app, app_length; cbn; lia.
